@@ -93,7 +93,7 @@ static void hex(FILE * f, const unsigned char * s, size_t n)
 
 static void begin_capture(void)
 {
-    fflush(stdout); fflush(stderr);
+    fflush(out); fflush(stdout); fflush(stderr);
     if (ftruncate(cap_out, 0) != 0 || ftruncate(cap_err, 0) != 0) { }
     lseek(cap_out, 0, SEEK_SET); lseek(cap_err, 0, SEEK_SET);
     dup2(cap_out, 1); dup2(cap_err, 2);
